@@ -153,6 +153,38 @@ Theorem C07_RandomCropFromBorders_faces_stay_in_their_documented_bands :
 Proof. exact RandomCropFromBorders_faces_in_their_bands. Qed.
 Print Assumptions C07_RandomCropFromBorders_faces_stay_in_their_documented_bands.
 
+(* the rotation classes draw their parameters from their OWN documented ranges, for every configuration and every
+   draw: a quarter-turn factor in 0..3, the angle within `limit` / `rotate_limit`, scale and the three shifts within
+   their own limits, and the plane the configured one (or a member of the configured list) *)
+From DV.proofs Require Import RotSamplers.
+Theorem C07_rotation_samplers_draw_from_their_own_limits :
+  ((forall axes d1 k ax, RandomRotate90S_get_params axes d1 = Ok (k, ax) -> (0 <= k <= 3)%Z /\ ax = axes) /\
+   (forall axes d1 d2 k ax, RandomRotate90L_get_params axes d1 d2 = Ok (k, ax) -> (0 <= k <= 3)%Z /\ In ax axes) /\
+   (forall axes lo hi d1 a ax, lo <= hi ->
+      RotateS_get_params_dependent_on_targets axes (lo, hi) d1 = Ok (a, ax) -> (lo <= a /\ a <= hi) /\ ax = axes) /\
+   (forall axes lo hi d1 d2 a ax, lo <= hi ->
+      RotateL_get_params_dependent_on_targets axes (lo, hi) d1 d2 = Ok (a, ax) -> (lo <= a /\ a <= hi) /\ In ax axes) /\
+   (forall axes r1 r2 s1 s2 x1 x2 y1 y2 z1 z2 d1 d2 d3 d4 d5 d6 a s dx dy dz ax,
+      r1 <= r2 -> s1 <= s2 -> x1 <= x2 -> y1 <= y2 -> z1 <= z2 ->
+      ShiftScaleRotateS_get_params axes (r1, r2) (s1, s2) (x1, x2) (y1, y2) (z1, z2) d1 d2 d3 d4 d5 d6 = Ok (a, s, dx, dy, dz, ax) ->
+      (r1 <= a /\ a <= r2) /\ (s1 <= s /\ s <= s2) /\ (x1 <= dx /\ dx <= x2) /\ (y1 <= dy /\ dy <= y2) /\
+      (z1 <= dz /\ dz <= z2) /\ In ax axes))%Q.
+Proof.
+  split; [exact RandomRotate90_params_one_plane|].
+  split; [exact RandomRotate90_params_plane_list|].
+  split; [exact Rotate_params_one_plane|].
+  split; [exact Rotate_params_plane_list|].
+  exact ShiftScaleRotate_params.
+Qed.
+Print Assumptions C07_rotation_samplers_draw_from_their_own_limits.
+
+From DV.gen Require Import Gen_cls_resize_samplers.
+From DV.proofs Require Import PixSamplers.
+Theorem C07_RandomScale_factor_within_its_limit : forall lo hi d1 s,
+  lo <= hi -> RandomScaleS_get_params (lo, hi) d1 = Ok s -> lo <= s /\ s <= hi.
+Proof. exact RandomScale_params. Qed.
+Print Assumptions C07_RandomScale_factor_within_its_limit.
+
 (* CropAndPad never crops an axis away ("This transformation will never crop images below a height or width of 1"):
    for ALL non-negative crop amounts the amounts that reach the crop are non-negative, not larger than requested,
    leave at least one voxel per axis -- exactly one where the request left none -- and are the requested ones
